@@ -62,3 +62,14 @@ package functional
 //@   ensures len(args) >= 2 && allNum(args, len(args)) && !noZeroDivisor(args, len(args)) ==> err == ErrDivisionByZero
 //@   loop 1 invariant 0 <= rangeindex + 1 && rangeindex + 2 <= len(args) && len(args) >= 2
 //@   loop 1 invariant allNum(args, rangeindex + 2) && noZeroDivisor(args, rangeindex + 2) && res == divTo(args, rangeindex + 2)
+
+// ---- C02: fn:collect_distinct keeps its result a set ---------------------------------------------------------
+// Whenever a row's value is added to the distinct result, the value is also recorded (as the newest entry) in the
+// bucket of seen values filed under its hash - in a new bucket as well as in an existing one - so that a later equal
+// value is recognised. (Two different constants can share a hash: 0 and 0.0, a number and a time of the same value.)
+// Everything else about the reducers is not covered by this contract.
+//@ spec func sameC(a ast.Constant, p *ast.Constant) bool = a.Type == p.Type && a.Symbol == p.Symbol && a.NumValue == p.NumValue && a.fst == p.fst && a.snd == p.snd
+//@ func EvalReduceFn(reduceFn, rows)
+//@   opt nosafety
+//@   opt assumeframe
+//@   loop 1 atback distinct && tuples != prev(tuples) ==> head.Hash() in seen && len(seen[head.Hash()]) > 0 && sameC(seen[head.Hash()][len(seen[head.Hash()]) - 1], head)
